@@ -284,7 +284,11 @@ package reconciling
 //@ requires r != nil
 //@ ensures isnil(result1) == (result0 != nil)
 //@ ensures implies(result0 != nil, txt.valid(result0.AllSerialised))
-//@ loop 1 invariant true
+// the text is assembled from the lines and nothing else: it is as long as the lines' texts and line endings together
+// (that its bytes are the lines' bytes in order is how Go's string concatenation works; a text produced in any
+// other way - formatted, trimmed, re-serialised - does not meet this equation in general)
+//@ ensures implies(result0 != nil, len(result0.AllSerialised) == sum(i, 0, len(r.lines), len(r.lines[i].Text) + len(r.lines[i].LineEnding)))
+//@ loop 1 invariant len(text) == sum(i, 0, rangeindex+1, len(r.lines[i].Text) + len(r.lines[i].LineEnding))
 
 // ---------------------------------------------------------------------------------------------
 // creator.go — the creators' composition (property C11): the reconciler for an existing record targets the first
